@@ -85,7 +85,12 @@ class Mon:
         self.stale_job_ran = False         # a disk job ran against a later incarnation than the one it was submitted for
         self.pageouts_in_flight = {}
 
+    def any_live_job_stale(self):
+        return any(inc is not None and inc != self.incarn[sid] for (_, sid, inc) in self.job_of_thread.values())
+
     def v(self, prop, cls, detail, **sig):
+        if self.any_live_job_stale():
+            self.stale_job_ran = True
         sig.setdefault("stale_job_ran", self.stale_job_ran)
         self.viol.append((prop, cls, detail, sig))
 
@@ -206,6 +211,12 @@ class Mon:
 
     def on_job_end(self, pool, fn, args):
         self.jobs_alive -= 1
+        if self.cur_job_is_stale():
+            # it was submitted for an earlier incarnation of the key than the one that exists now: whatever it did, it did to the new one
+            if not self.stale_job_ran:
+                self.K.probe("disk_job_outlived_its_incarnation")
+            self.stale_job_ran = True
+        self.job_of_thread.pop(self.K.cur().name, None)
         name = getattr(fn, "__name__", "")
         if name == "_page_out":
             self.K.probe("pageout_finished")
@@ -218,6 +229,8 @@ class Mon:
 
     def on_unlink(self, shmid):
         key = self.shmid2key.get(shmid)
+        if self.cur_job_is_stale():
+            self.stale_job_ran = True
         if self.fresh_readers(key):
             self.v("C09", "unlinked_while_fresh_reader", (key, dict(self.readers[key])), stale_job=self.cur_job_is_stale())
         self.resident.pop(shmid, None)
